@@ -1,5 +1,6 @@
 import ThruVerif.Props.C01
 import ThruVerif.Props.C05
+import ThruVerif.Proofs.Resume
 /-!
 # C04 — Resuming after an interruption at any point ends in the identical tree
 
@@ -58,3 +59,30 @@ example : SoundOnDisk [7, 8, 9] [7, 8, 0] [true, true, false] :=
   ⟨rfl, rfl, by intro i hi hb; rcases i with _ | _ | _ | i <;> simp_all [gb, gn]⟩
 
 end TV.C04
+
+namespace TV.Resume
+
+/-! ### finished work is advertised and not requested again (`Model/Resume`) -/
+
+/-- **C04_finished_work_not_resent.** A chunk the receiver's metadata marks complete, lying more than the verification tail below
+the highest recorded chunk, does not travel again (the hash of the highest recorded chunk being known) -/
+theorem C04_finished_work_not_resent (c : Cfg) (total : Nat) (b : List Bool) (good : Nat → Bool) (hashed : Bool) (h i : Nat)
+    (hhi : highest b total = some h) (hk : (!c.hashOn || hashed) = true) (hbi : bit b i = true) (hlt : i + c.tail ≤ h) (hne : i ≠ h) :
+    sent (recvInfo total b good hashed c.hashOn) (plan c (recvInfo total b good hashed c.hashOn)) i = false := by
+  obtain ⟨_, hht, _⟩ := highest_some hhi
+  have hf := force_known (c := c) (info := recvInfo total b good hashed c.hashOn) (by simp [recvInfo, hhi, hk])
+    (by simpa [recvInfo, hhi] using hht)
+  simp only [recvInfo, hhi] at hf
+  have hskip : skipped (recvInfo total b good hashed c.hashOn) (plan c (recvInfo total b good hashed c.hashOn)) i = true := by
+    simp only [skipped, recvInfo, hhi, hbi, Bool.true_and, decide_eq_true_eq]
+    omega
+  simp only [sent, hskip, Bool.not_true, Bool.false_or, Bool.and_eq_false_iff]
+  right; right
+  simp [recvInfo, hhi, hne]
+
+/-- the receiver's report carries the bitmap it loaded, unchanged (what `C04_resume` starts from is what the sender plans from) -/
+theorem C04_report_is_loaded_bitmap (total : Nat) (b : List Bool) (good : Nat → Bool) (hashed hashOn : Bool) :
+    (recvInfo total b good hashed hashOn).bitmap = b ∧ (recvInfo total b good hashed hashOn).total = total := by
+  unfold recvInfo; split <;> exact ⟨rfl, rfl⟩
+
+end TV.Resume
